@@ -20,7 +20,7 @@ RULE = ("(a) header/frame codec: every 12-bit origin and destination, ids incl. 
 REQUIRED = {"pack_bytes": 10000, "unpack_roundtrip": 10000, "short_buffer_refused": 50,
             "onair_frames_vs_reference": 200, "tmrh_reassembly": 200, "caller_header_type": 200,
             "caller_header_type_routed": 10}
-BUDGET = {"quick": 45, "thorough": 400}
+BUDGET = {"quick": 150, "thorough": 400}
 
 
 def gen_cases(ctx):
